@@ -49,7 +49,7 @@ func (s *slowStorage) Clear(ctx context.Context, id uuid.UUID) error { return s.
 func TestC08SlowStorageRT(t *testing.T) {
 	e := vrun.LoadEnv()
 	meta := vrun.Meta{Property: "C08", Workload: "TestC08SlowStorageRT", Total: e.Pick(60, 3000),
-		Rule:        "real time: one reliable upstream (flush policy immediate or none) on a healthy link; sent-storage operations stretched (List 0-60 ms, Store/Remove 0-5 ms); the broker acknowledges every chunk, none, or every second one, immediately or after 0-80 ms; close timeout 5-80 ms, call contexts 100-400 ms; 3-12 writes, an optional Flush, then Close. Oracle: every call has returned 10 s after its context expired at the latest. non-trivial = Close ran with at least one chunk unacknowledged or the storage List took longer than the close timeout; distinct = scenario tuple",
+		Rule:        "real time: one reliable upstream (flush policy immediate or none) on a healthy link; sent-storage operations stretched (List 0-60 ms, Store/Remove 0-5 ms); the broker acknowledges every chunk, none, or every second one, immediately or after 0-80 ms; close timeout 5-80 ms, call contexts 100-400 ms; 3-12 writes, 0/1/3 Flush calls whose caller gives up at once (context cancelled or 1 ms), an optional Flush, then Close (in half of the cases without a deadline of its own). Oracle: every call has returned 10 s after its context expired at the latest. non-trivial = Close ran with at least one chunk unacknowledged or the storage List took longer than the close timeout; distinct = scenario tuple",
 		Assumptions: []string{"the 10 s bound is a wall-clock watchdog two orders of magnitude above every configured deadline: a call counted as blocked is blocked for good, not slow"}}
 	vrun.Loop(t, meta, 0, func(c *vrun.Case) vrun.Result {
 		var res vrun.Result
@@ -75,8 +75,12 @@ func runSlowStorage(c *vrun.Case) vrun.Result {
 	writes := 3 + r.Intn(10)
 	policy := []string{"immediate", "none"}[r.Intn(2)]
 	doFlush := r.Intn(2) == 0
+	// abandoned: Flush calls whose caller gives up (context already cancelled, or 1 ms) while the flush loop is busy
+	// with the request; bgClose: the final Close has no deadline of its own (its waits are bounded by the close timeout)
+	abandoned := []int{0, 0, 1, 3}[r.Intn(4)]
+	bgClose := r.Intn(2) == 0
 	desc := map[string]any{"storage_list_ms": listD.Milliseconds(), "storage_store_remove_ms": storeD.Milliseconds(), "acks": ackMode, "ack_delay_ms": ackDelay.Milliseconds(),
-		"close_timeout_ms": closeTo.Milliseconds(), "call_context_ms": callTo.Milliseconds(), "writes": writes, "flush_policy": policy, "explicit_flush": doFlush}
+		"close_timeout_ms": closeTo.Milliseconds(), "call_context_ms": callTo.Milliseconds(), "writes": writes, "flush_policy": policy, "explicit_flush": doFlush, "flushes_abandoned_by_their_caller": abandoned, "close_without_deadline": bgClose}
 	done := func(v vrun.Result) vrun.Result { v.Desc = desc; return v }
 	w := world.New()
 	defer w.Close()
@@ -149,15 +153,29 @@ func runSlowStorage(c *vrun.Case) vrun.Result {
 			return done(*v)
 		}
 	}
+	for k := 0; k < abandoned; k++ {
+		actx, acn := context.WithTimeout(context.Background(), time.Millisecond)
+		if k%2 == 1 {
+			acn() // already cancelled
+		}
+		_ = up.WriteDataPoints(context.Background(), id, &message.DataPoint{ElapsedTime: time.Duration(1000 + k), Payload: []byte("a")})
+		_ = up.Flush(actx)
+		acn()
+	}
 	if doFlush {
 		if v := bounded("Flush", func(ctx context.Context) error { return up.Flush(ctx) }); v != nil {
 			return done(*v)
 		}
 	}
-	if v := bounded("Upstream.Close", func(ctx context.Context) error { return up.Close(ctx) }); v != nil {
+	if v := bounded("Upstream.Close", func(ctx context.Context) error {
+		if bgClose {
+			return up.Close(context.Background())
+		}
+		return up.Close(ctx)
+	}); v != nil {
 		return done(*v)
 	}
-	res := vrun.Hold(fmt.Sprintf("%v|%v|%s|%v|%v|%v|%d|%s|%v", listD, storeD, ackMode, ackDelay, closeTo, callTo, writes, policy, doFlush), ackMode != "all" || ackDelay > 0 || listD > closeTo)
+	res := vrun.Hold(fmt.Sprintf("%v|%v|%s|%v|%v|%v|%d|%s|%v|%d|%v", listD, storeD, ackMode, ackDelay, closeTo, callTo, writes, policy, doFlush, abandoned, bgClose), ackMode != "all" || ackDelay > 0 || listD > closeTo)
 	res.Stat("calls_bounded", int64(writes+1+map[bool]int{true: 1, false: 0}[doFlush]))
 	return done(res)
 }
